@@ -4,73 +4,65 @@ import (
 	"strings"
 )
 
-// Reference implementation of CommonMark 0.31.2 §6.2 (emphasis and strong emphasis) for inline content made only of
-// letters, spaces, '.', '*' and '_'. It is the delimiter-run procedure of the specification's appendix written in its
-// definitional form: every closer searches ALL earlier delimiters (no openers_bottom shortcut), the multiple-of-3 rule
-// uses the lengths of the delimiter runs as written. Nothing here is shared with goldmark.
+// Reference implementation of the inline structure of CommonMark 0.31.2 for content made only of letters, digits, blanks,
+// '.', '!', '*', '_', '[', ']', '`', '\' and inline link tails of the form "(dest)" with dest = optional '/' + lower-case
+// letters directly behind a ']': code spans (§6.1), backslash escapes (§2.4), emphasis and strong emphasis (§6.2), inline
+// links (§6.3) and images (§6.4) with their precedence rules. It is the procedure of the specification's appendix
+// ("An algorithm for parsing nested emphasis and links") in its definitional form: every closer searches ALL earlier
+// delimiters (no openers_bottom shortcut), the multiple-of-3 rule uses the lengths of the delimiter runs as written.
+// Nothing here is shared with goldmark.
 
 type emNode struct {
-	kind              int // 0 text, 1 delimiter run, 2 em, 3 strong
+	kind              int // 0 text, 1 delimiter run, 2 em, 3 strong, 4 code, 5 bracket opener, 6 link, 7 image
 	text              string
 	ch                byte
 	n, orig           int
 	canOpen, canClose bool
 	active            bool
+	image             bool
+	dest              string
 	kids              []*emNode
 	prev, next        *emNode
 }
 
 func emIsSpace(c byte) bool { return c == ' ' || c == '\n' || c == '\t' }
-func emIsPunct(c byte) bool { return c == '.' || c == '*' || c == '_' }
+func emIsPunct(c byte) bool {
+	return c >= '!' && c <= '/' || c >= ':' && c <= '@' || c >= '[' && c <= '`' || c >= '{' && c <= '~'
+}
 
-// emphRefHTML returns the HTML of the inline content s (no leading or trailing blanks).
-func emphRefHTML(s string) string {
-	head := &emNode{kind: -1}
-	tail := head
-	add := func(n *emNode) {
-		n.prev = tail
-		tail.next = n
-		tail = n
+type inlineRef struct {
+	head, tail *emNode
+}
+
+func (r *inlineRef) add(n *emNode) {
+	n.prev = r.tail
+	n.next = nil
+	r.tail.next = n
+	r.tail = n
+}
+
+func (r *inlineRef) remove(n *emNode) {
+	n.prev.next = n.next
+	if n.next != nil {
+		n.next.prev = n.prev
+	} else {
+		r.tail = n.prev
 	}
-	for i := 0; i < len(s); {
-		c := s[i]
-		if c != '*' && c != '_' {
-			j := i
-			for j < len(s) && s[j] != '*' && s[j] != '_' {
-				j++
-			}
-			add(&emNode{kind: 0, text: s[i:j]})
-			i = j
-			continue
-		}
-		j := i
-		for j < len(s) && s[j] == c {
-			j++
-		}
-		before, after := byte(' '), byte(' ') // the beginning and the end of the line count as whitespace
-		if i > 0 {
-			before = s[i-1]
-		}
-		if j < len(s) {
-			after = s[j]
-		}
-		left := !emIsSpace(after) && (!emIsPunct(after) || emIsSpace(before) || emIsPunct(before))
-		right := !emIsSpace(before) && (!emIsPunct(before) || emIsSpace(after) || emIsPunct(after))
-		d := &emNode{kind: 1, ch: c, n: j - i, orig: j - i, active: true}
-		if c == '*' {
-			d.canOpen, d.canClose = left, right
-		} else {
-			d.canOpen = left && (!right || emIsPunct(before))
-			d.canClose = right && (!left || emIsPunct(after))
-		}
-		add(d)
-		i = j
+}
+
+func (r *inlineRef) text(s string) {
+	if r.tail.kind == 0 {
+		r.tail.text += s
+		return
 	}
-	remove := func(n *emNode) {
-		n.prev.next = n.next
-		if n.next != nil {
-			n.next.prev = n.prev
-		}
+	r.add(&emNode{kind: 0, text: s})
+}
+
+// processEmphasis is "process emphasis" with the given stack bottom (nil = the whole list).
+func (r *inlineRef) processEmphasis(bottom *emNode) {
+	start := r.head
+	if bottom != nil {
+		start = bottom
 	}
 	nextDelim := func(n *emNode) *emNode {
 		for n = n.next; n != nil; n = n.next {
@@ -80,14 +72,14 @@ func emphRefHTML(s string) string {
 		}
 		return nil
 	}
-	cur := nextDelim(head)
+	cur := nextDelim(start)
 	for cur != nil {
 		if !cur.canClose {
 			cur = nextDelim(cur)
 			continue
 		}
 		var opener *emNode
-		for o := cur.prev; o != nil && o.kind != -1; o = o.prev {
+		for o := cur.prev; o != nil && o != start; o = o.prev {
 			if o.kind != 1 || !o.active || o.ch != cur.ch || !o.canOpen {
 				continue
 			}
@@ -118,27 +110,189 @@ func emphRefHTML(s string) string {
 			em.kids = append(em.kids, x)
 			x = nx
 		}
-		// splice: opener <-> em <-> cur
 		opener.next, em.prev = em, opener
 		em.next, cur.prev = cur, em
 		opener.n -= use
 		cur.n -= use
 		if opener.n == 0 {
 			opener.active = false
-			remove(opener)
+			r.remove(opener)
 		}
 		if cur.n == 0 {
 			nx := nextDelim(cur)
 			cur.active = false
-			remove(cur)
+			r.remove(cur)
 			cur = nx
 		}
 	}
+	// all delimiters above the bottom leave the stack
+	for n := start.next; n != nil; n = n.next {
+		if n.kind == 1 {
+			n.active = false
+		}
+	}
+}
+
+// inlineDest recognises "(dest)" at the head of s; dest = optional '/' followed by one or more lower-case letters.
+func inlineDest(s string) (dest string, n int) {
+	if len(s) < 3 || s[0] != '(' {
+		return "", 0
+	}
+	i := 1
+	if s[i] == '/' {
+		i++
+	}
+	j := i
+	for j < len(s) && s[j] >= 'a' && s[j] <= 'z' {
+		j++
+	}
+	if j == i || j >= len(s) || s[j] != ')' {
+		return "", 0
+	}
+	return s[1:j], j + 1
+}
+
+// emphRefHTML returns the HTML of the inline content s (no leading or trailing blanks, XHTML void syntax).
+func emphRefHTML(s string) string {
+	head := &emNode{kind: -1}
+	r := &inlineRef{head: head, tail: head}
+	for i := 0; i < len(s); {
+		c := s[i]
+		switch {
+		case c == '\\' && i+1 < len(s) && emIsPunct(s[i+1]):
+			r.add(&emNode{kind: 0, text: s[i+1 : i+2]}) // a separate node: never merged into a delimiter run
+			i += 2
+		case c == '`':
+			j := i
+			for j < len(s) && s[j] == '`' {
+				j++
+			}
+			n := j - i
+			// closing run of exactly n backticks
+			k, found := j, -1
+			for k < len(s) {
+				if s[k] != '`' {
+					k++
+					continue
+				}
+				e := k
+				for e < len(s) && s[e] == '`' {
+					e++
+				}
+				if e-k == n {
+					found = k
+					break
+				}
+				k = e
+			}
+			if found < 0 {
+				r.text(s[i:j])
+				i = j
+				continue
+			}
+			body := strings.ReplaceAll(s[j:found], "\n", " ")
+			if len(body) >= 2 && body[0] == ' ' && body[len(body)-1] == ' ' && strings.Trim(body, " ") != "" {
+				body = body[1 : len(body)-1]
+			}
+			r.add(&emNode{kind: 4, text: body})
+			i = found + n
+		case c == '*' || c == '_':
+			j := i
+			for j < len(s) && s[j] == c {
+				j++
+			}
+			before, after := byte(' '), byte(' ') // the beginning and the end of the line count as whitespace
+			if i > 0 {
+				before = s[i-1]
+			}
+			if j < len(s) {
+				after = s[j]
+			}
+			left := !emIsSpace(after) && (!emIsPunct(after) || emIsSpace(before) || emIsPunct(before))
+			right := !emIsSpace(before) && (!emIsPunct(before) || emIsSpace(after) || emIsPunct(after))
+			d := &emNode{kind: 1, ch: c, n: j - i, orig: j - i, active: true}
+			if c == '*' {
+				d.canOpen, d.canClose = left, right
+			} else {
+				d.canOpen = left && (!right || emIsPunct(before))
+				d.canClose = right && (!left || emIsPunct(after))
+			}
+			r.add(d)
+			i = j
+		case c == '[':
+			r.add(&emNode{kind: 5, active: true, text: "["})
+			i++
+		case c == '!' && i+1 < len(s) && s[i+1] == '[':
+			r.add(&emNode{kind: 5, active: true, image: true, text: "!["})
+			i += 2
+		case c == ']':
+			i++
+			var opener *emNode
+			for o := r.tail; o != nil && o.kind != -1; o = o.prev {
+				if o.kind == 5 {
+					opener = o
+					break
+				}
+			}
+			if opener == nil {
+				r.text("]")
+				continue
+			}
+			if !opener.active {
+				opener.kind = 0 // stays as literal text, leaves the bracket stack
+				r.text("]")
+				continue
+			}
+			dest, n := inlineDest(s[i:])
+			if n == 0 {
+				opener.kind = 0
+				r.text("]")
+				continue
+			}
+			i += n
+			r.processEmphasis(opener)
+			ln := &emNode{kind: 6, dest: dest}
+			if opener.image {
+				ln.kind = 7
+			}
+			for x := opener.next; x != nil; x = x.next {
+				ln.kids = append(ln.kids, x)
+			}
+			// replace opener and everything behind it by the link node
+			r.tail = opener.prev
+			r.tail.next = nil
+			r.add(ln)
+			if !opener.image {
+				for o := ln.prev; o != nil && o.kind != -1; o = o.prev {
+					if o.kind == 5 && !o.image {
+						o.active = false
+					}
+				}
+			}
+		default:
+			r.text(s[i : i+1])
+			i++
+		}
+	}
+	r.processEmphasis(nil)
 	var b strings.Builder
 	var render func(n *emNode)
+	var plain func(n *emNode)
+	plain = func(n *emNode) {
+		switch n.kind {
+		case 0, 4, 5:
+			b.WriteString(n.text)
+		case 1:
+			b.WriteString(strings.Repeat(string(n.ch), n.n))
+		default:
+			for _, k := range n.kids {
+				plain(k)
+			}
+		}
+	}
 	render = func(n *emNode) {
 		switch n.kind {
-		case 0:
+		case 0, 5:
 			b.WriteString(n.text)
 		case 1:
 			b.WriteString(strings.Repeat(string(n.ch), n.n))
@@ -152,6 +306,20 @@ func emphRefHTML(s string) string {
 				render(k)
 			}
 			b.WriteString("</" + tag + ">")
+		case 4:
+			b.WriteString("<code>" + n.text + "</code>")
+		case 6:
+			b.WriteString("<a href=\"" + n.dest + "\">")
+			for _, k := range n.kids {
+				render(k)
+			}
+			b.WriteString("</a>")
+		case 7:
+			b.WriteString("<img src=\"" + n.dest + "\" alt=\"")
+			for _, k := range n.kids {
+				plain(k)
+			}
+			b.WriteString("\" />")
 		}
 	}
 	for n := head.next; n != nil; n = n.next {
@@ -160,20 +328,30 @@ func emphRefHTML(s string) string {
 	return b.String()
 }
 
-// emphPlain reports whether s consists only of the characters the reference implementation knows.
+// emphPlain reports whether s consists only of the characters the reference implementation knows, parentheses only as
+// inline link tails directly behind a ']'.
 func emphPlain(s string) bool {
 	for i := 0; i < len(s); i++ {
 		c := s[i]
-		if !(c >= 'a' && c <= 'z' || c >= 'A' && c <= 'Z' || c >= '0' && c <= '9' || c == ' ' || c == '.' || c == '*' || c == '_') {
+		switch {
+		case c >= 'a' && c <= 'z' || c >= 'A' && c <= 'Z' || c >= '0' && c <= '9' || c == ' ' || c == '.' || c == '!' || c == '*' || c == '_' || c == '[' || c == ']' || c == '`' || c == '\\':
+		case c == '(' && i > 0 && s[i-1] == ']':
+			_, n := inlineDest(s[i:])
+			if n == 0 {
+				return false
+			}
+			i += n - 1
+		default:
 			return false
 		}
 	}
 	return s != "" && s[0] != ' ' && s[len(s)-1] != ' '
 }
 
-// emphParagraphSafe: s, written alone on a line, is a paragraph (not a list item, thematic break or indented code).
+// emphParagraphSafe: s, written alone on a line, is a paragraph (not a list item, thematic break, code fence or heading)
+// and its inline content is s itself (no hard break at the end).
 func emphParagraphSafe(s string) bool {
-	if strings.HasPrefix(s, "* ") || s == "*" {
+	if strings.HasPrefix(s, "* ") || s == "*" || strings.HasPrefix(s, "```") || strings.HasSuffix(s, "\\") {
 		return false
 	}
 	stars, unders, other := 0, 0, 0
